@@ -21,7 +21,8 @@ ASSUMPTIONS = ["default ws_strategy='subdiff' (the fixpoint residual certifies t
                "lemma: convexity turns the directional inequalities into the global variational inequality",
                "Logistic/Poisson (transcendental objectives), PDCD_WS (primal-dual criterion) and numerical agreement with "
                "sklearn/celer are outside"]
-BOUNDS = dict(quick="AndersonCD / GramCD / ProxNewton t0 runs + cold (2,1) runs; FISTA 1 iteration from any start", thorough="more designs")
+BOUNDS = dict(quick="AndersonCD / GramCD / ProxNewton t0 runs + cold (2,1) runs; AndersonCD.path on 2 symbolic alphas, 1 epoch per "
+                    "point; FISTA 1 iteration from any start", thorough="more designs and penalties")
 
 
 def directional_ok(h, R, w, tol):
@@ -100,6 +101,49 @@ def u_fista(h, datafit, penalty, X, warm=True):
     h.ensure('variational-inequality', directional_ok(h, R, wl, tol), findings={'F16': h.not_(fresh_stops)})
 
 
+def u_path_vi(h, penalty, X, fit_intercept, sparse=False, epochs=1):
+    """real AndersonCD.path on a 2-point grid (cold start, one epoch per grid point): every grid point whose reported
+    stop_crit is <= tol satisfies the variational inequality of ITS OWN problem (alpha_t) -- in particular the second
+    point, which is warm-started from the first through path()'s own (w, Xw) bookkeeping"""
+    import skglm.solvers.anderson_cd as acd
+    import skglm.solvers as S
+    Xc = X_of(X)
+    n, p = Xc.shape
+    tol = h.real('tol')
+    h.assume(tol > 0)
+    pen, meta = mk_sep_penalty(h, penalty, p=p, concrete_hyper=True)
+    df, y, dmeta = DR.mk_datafit(h, 'Quadratic', n)
+    a1, a2 = h.real('alpha1'), h.real('alpha2')
+    h.assume(a1 > 0, a2 > 0)
+    alphas = [a1, a2]
+    nw = p + (1 if fit_intercept else 0)
+    solver = S.AndersonCD(max_iter=1, max_epochs=epochs, p0=p, tol=tol, fit_intercept=fit_intercept)
+    Xd = h.const(Xc)
+    Xarg = h.csc(Xd) if sparse else Xd
+    old = acd.check_array
+    if h.mode == 'sym':
+        acd.check_array = lambda a, *args, **kw: a
+    try:
+        res = solver.path(Xarg, y, df, pen, alphas=h.arr(alphas) if h.mode == 'sym' else np.array(alphas, dtype=float))
+    finally:
+        acd.check_array = old
+    _, coefs, stop_crits = res[:3]
+    R = DR.Rec()
+    R.cfg = dict(solver='AndersonCD', ws_strategy='subdiff')
+    R.n, R.p, R.Xc, R.y, R.df, R.dmeta, R.pen, R.meta, R.fit_intercept = n, p, Xc, y, df, dmeta, pen, meta, fit_intercept
+    for t in range(2):
+        w = [coefs[k, t] for k in range(nw)]
+        for k in range(nw):
+            h.observe('coef%d_%d' % (k, t), w[k])
+        pen.alpha = alphas[t]
+        meta['alpha'] = alphas[t]
+        stopped = h.le(stop_crits[t], tol)
+        if (h.mode == 'sym' and bool(stopped)) or (h.mode != 'sym' and stopped.strict):
+            h.ensure('variational-inequality[grid point %d]' % t, directional_ok(h, R, w, tol))
+        else:
+            h.ensure('variational-inequality[grid point %d]' % t, True)
+
+
 def units(tier):
     us = []
     q = tier == 'quick'
@@ -121,6 +165,11 @@ def units(tier):
         us.append(Unit('C02/D/AndersonCD[e2e,%s,%s,intercept=%s]' % (df, pen, fi), u_vi,
                        dict(cfg=dict(solver='AndersonCD', datafit=df, penalty=pen, X='corr32', max_iter=2, max_epochs=1, p0=1,
                                      fit_intercept=fi, ws_strategy='subdiff', warm=False)), wall_s=120, timeout_ms=8000))
+    for pen, fi, sparse in itertools.product(['L1'] if q else ['L1', 'L1+', 'IndicatorBox'], (False, True), (False, True)):
+        if q and fi and sparse:
+            continue
+        us.append(Unit('C02/D/AndersonCD.path[%s,intercept=%s,sparse=%s]' % (pen, fi, sparse), u_path_vi,
+                       dict(penalty=pen, X='corr32', fit_intercept=fi, sparse=sparse), wall_s=150, timeout_ms=8000))
     for pen, X, greedy in itertools.product(['L1', 'L1+', 'WeightedL1', 'IndicatorBox'], ['corr32', 'gen32'], (False, True)):
         if q and dh((pen, X, greedy)) % 2:
             continue
@@ -149,7 +198,9 @@ MANIFEST = dict(
                 "the one-sided directional derivative of the true objective -- the real value() code on dual numbers -- is >= "
                 "-tol along every signed coordinate and intercept direction; by convexity the returned point then satisfies "
                 "F(v) >= F(w) - tol*||v-w||_1 against EVERY competitor v, i.e. it is tol-optimal and all solvers stopping on the "
-                "same problem agree within that margin. FISTA's stopping test is checked the same way (known finding F16)."),
+                "same problem agree within that margin. The real AndersonCD.path() on a 2-point grid whose points move is "
+                "checked the same way per grid point (for its own alpha). FISTA's stopping test is checked the same way "
+                "(known finding F16)."),
     level_note=("The mathematical optimum replaces external reference implementations (sklearn, LP/conic solvers cannot be "
                 "executed symbolically; 'converged' is an unbounded notion). Convexity lemma trusted. Logistic / Poisson / SVC "
                 "through estimators, PDCD_WS, quantile / square-root lasso references and uniqueness of the minimiser are outside. "
